@@ -23,7 +23,7 @@ import vf.gen.url as G
 
 SHARDS = {"quick": 4, "thorough": 16}
 BUDGET = {"quick": 20, "thorough": 240}
-MIN_CASES = {"quick": 40000, "thorough": 400000}
+MIN_CASES = {"quick": 200000, "thorough": 1500000}
 EXHAUSTIVE_CLAIM = True
 RULE = ("(P) protocol laws: every string of length <= 5 (quick) / <= 6 (thorough) over {a Z : / . 1} and every sequence of <= 3 tokens over 18 protocol-ish tokens "
         "(http:// HTTPS:// // ftp: :// / : a.com x ?u=http://b.org #f space mailto: 64 letters 65 letters e-acute newline wss://) x 8 (quick) / 15 (thorough) alphabetic protocols bare or with '://', "
@@ -884,9 +884,10 @@ def check_pathsplit(ctx, path):
         ctx.nontrivial(("S", path))
     for suffix, detail in bad:
         w = path
-        if len(w) > 1:
-            w = "".join(shrink_tokens(list(w), lambda t: any(m == suffix for m, _ in (judge_pathsplit(ctx, "".join(t)) or [])), max_calls=80))
-            detail = dict(judge_pathsplit(ctx, w) or []).get(suffix, detail)
+        if len(w) > 1 and not suffix.startswith("exception:"):
+            # the mechanism is named after the minimal path that still splits wrongly
+            w = "".join(shrink_tokens(list(w), lambda t: any(m.startswith("pathsplit:") for m, _ in (judge_pathsplit(ctx, "".join(t)) or [])), max_calls=80))
+            suffix, detail = (judge_pathsplit(ctx, w) or [(suffix, detail)])[0]
         ctx.viol("C20:" + suffix, {"kind": "pathsplit", "path": w}, detail)
 
 
@@ -907,7 +908,18 @@ def check_urlpathsplit(ctx, prefix, path, suffix, as_split=False):
     if path_class(path) != "bare" or suffix:
         ctx.nontrivial(("U", prefix, path, suffix, as_split))
     for sfx, detail in bad:
-        ctx.viol("C20:" + sfx, {"kind": "urlpathsplit", "prefix": prefix, "path": path, "suffix": suffix, "as_split": as_split}, detail)
+        wp, ws = path, suffix
+        if not sfx.startswith("exception:"):
+            def fails(p, s):
+                if p and not p.startswith("/"):
+                    return False
+                return any(m.startswith("urlpathsplit:") for m, _ in (judge_urlpathsplit(ctx, prefix, p, s, as_split) or []))
+            if ws and fails(wp, ""):
+                ws = ""
+            if len(wp) > 1:
+                wp = "".join(shrink_tokens(list(wp), lambda t: fails("".join(t), ws), max_calls=80))
+            sfx, detail = (judge_urlpathsplit(ctx, prefix, wp, ws, as_split) or [(sfx, detail)])[0]
+        ctx.viol("C20:" + sfx, {"kind": "urlpathsplit", "prefix": prefix, "path": wp, "suffix": ws, "as_split": as_split}, detail)
 
 
 # ----------------------------------------------------------------------------------------------
